@@ -624,7 +624,15 @@ func (p *nriPlugin) StopContainer(ctx context.Context, pod *api.PodSandbox, cont
 	c.UpdateState(cache.ContainerStateExited)
 	m.updateTopologyZones()
 
-	return p.getPendingUpdates(container), nil
+	updates = p.getPendingUpdates(container)
+
+	// a stopped container takes no more updates, drop whatever is still queued for it
+	c.GetPendingUpdate()
+	for _, ctrl := range c.GetPending() {
+		c.ClearPending(ctrl)
+	}
+
+	return updates, nil
 }
 
 func (p *nriPlugin) RemoveContainer(ctx context.Context, pod *api.PodSandbox, container *api.Container) (retErr error) {
